@@ -65,6 +65,37 @@ def firmware_objs_for(run, primary_rel, funcs, name, extra_flags=()):
     return [firmware_obj(run, rel, "%s_%d" % (name, i) if i else name, extra_flags=extra_flags) for i, rel in enumerate(rels)]
 
 
+def sibling_objs(run, objs, dir_rel, name, extra_flags=(), rounds=3):
+    """objects of OTHER source files of the firmware directory `dir_rel` that define symbols the given objects refer to but do
+    not define (a table or a function moved into a file of its own next to the one it came from): found by a trial link,
+    the undefined symbols are looked up as definitions in the .c files of that directory"""
+    import re
+    base = os.path.join(vf.REPO, "src/target/firmware")
+    have, extra = set(), []
+    for _ in range(rounds):
+        rc, o = vf.sh(["gcc", "-nostartfiles", "-Wl,--no-gc-sections"] + list(objs) + extra + ["-o", os.path.join(run.scratch, name + ".trial")], timeout=300)
+        syms = set(re.findall(r"undefined reference to `([A-Za-z_]\w*)'", o)) - have
+        if not syms:
+            break
+        have |= syms
+        added = False
+        for fn in sorted(os.listdir(os.path.join(base, dir_rel))):
+            if not fn.endswith(".c"):
+                continue
+            rel = os.path.join(dir_rel, fn)
+            txt = re.sub(r"/\*.*?\*/", "", open(os.path.join(base, rel), errors="replace").read(), flags=re.S)
+            for sy in syms:
+                if re.search(r"^(?!\s*extern\b)[A-Za-z_][^;{}()=]*\b%s\s*(\[[^\]]*\]\s*)*(=|\([^;{}]*\)\s*\{)" % re.escape(sy), txt, re.M):
+                    o2 = firmware_obj(run, rel, "%s_sib%d" % (name, len(extra)), extra_flags=extra_flags)
+                    if o2 not in extra and o2 not in objs:
+                        extra.append(o2)
+                        added = True
+                    break
+        if not added:
+            break
+    return extra
+
+
 def libosmocore_obj(run, rel, name, extra_flags=()):
     return obj(run, os.path.join(vf.REPO, "src/shared/libosmocore/src", rel), name,
                flags=list(extra_flags),
